@@ -67,7 +67,7 @@ func c20guard(f func() string) (res string) {
 	select {
 	case r := <-done:
 		return r
-	case <-time.After(30 * time.Second):
+	case <-time.After(20 * time.Second):
 		return "timeout"
 	}
 }
@@ -576,9 +576,12 @@ func c20execFile(rev bool, content []byte, missing bool) string {
 			return "err write"
 		}
 	}
+	// a correct scan yields at most one element per newline plus one; the bound only matters when the code under
+	// test yields elements forever (then the observation shows the surplus instead of exhausting the memory)
+	bound := bytes.Count(content, []byte{'\n'}) + 3
 	s := stream.Map(file.StreamFromFile(p, rev), func(b []byte) c20Pulled {
 		return c20Pulled{b: b, n: len(b), h: c20fnv(b)}
-	})
+	}).Limit(bound)
 	res, err := s.Collect(context.Background())
 	if err != nil {
 		if errors.Is(err, bufio.ErrTooLong) || errors.Is(err, file.ErrTooLong) {
@@ -737,7 +740,7 @@ func genC20Json(c *Ctx) {
 	}
 	// seeded random: element sequences over the value grammar through the three writers and back, and
 	// hand-built array / object documents with white space
-	n := c.Pick(400, 8000)
+	n := c.Pick(400, 20000)
 	for i := 0; i < n; i++ {
 		k := r.Small(12)
 		es := make([]string, k)
@@ -869,7 +872,7 @@ func genC20Files(c *Ctx) {
 	c.Case(false, "missing rev")
 	// exhaustive small scope: every file made of up to 6 (thorough 8) units out of {"a", "\n", "\r\n"}, both directions
 	units := []string{"a", "\n", "\r\n"}
-	maxUnits := c.Pick(6, 8)
+	maxUnits := c.Pick(6, 9)
 	var rec func(cur string, k int)
 	rec = func(cur string, k int) {
 		h := c20hex([]byte(cur))
@@ -916,7 +919,7 @@ func genC20Files(c *Ctx) {
 	}
 	// seeded random
 	boundary := []int{2048, 4096, 8192, 16384, 32768, 65536}
-	n := c.Pick(260, 4000)
+	n := c.Pick(260, 12000)
 	for i := 0; i < n; i++ {
 		var lens []int
 		total := 0
